@@ -13,6 +13,7 @@ mod seq;
 mod entry;
 mod iso;
 mod front;
+mod capi;
 
 fn main() {
     let args: Vec<String> = std::env::args().collect();
@@ -31,6 +32,7 @@ fn main() {
         "entry" => entry::main(&rest),
         "iso" => iso::main(&rest),
         "front" => front::main(&rest),
+        "capi" => capi::main(&rest),
         _ => {
             eprintln!("usage: th <engine> <args..>");
             2
